@@ -62,9 +62,13 @@ class Env:
             sc["final"] = sc["path"] + ".final"
             cmd += ["--final", sc["final"]]
         i = subprocess.run(cmd, stdout=subprocess.PIPE, text=True, timeout=600).stdout
-        sc["model"] = [l for l in m.split("\n") if l and not l.startswith("INT ")]
-        sc["model_int"] = [l for l in m.split("\n") if l.startswith("INT ")]
-        sc["impl"] = [l for l in i.split("\n") if l]
+        impl_lines = [l for l in i.split("\n") if l]
+        # internal-state lines are compared only where the implementation's Debug text could be parsed
+        unparsed = {l.split()[1] for l in impl_lines if l.startswith("INT ") and l.endswith(" unparsed")}
+        have_int = any(l.startswith("INT ") for l in impl_lines)
+        keep = lambda l: not l.startswith("INT ") or (have_int and l.split()[1] not in unparsed)
+        sc["model"] = [l for l in m.split("\n") if l and keep(l)]
+        sc["impl"] = [l for l in impl_lines if keep(l)]
         return sc
 
     def run_all(self, writes=False, final=False, scripts=None):
@@ -111,7 +115,7 @@ class Env:
     @staticmethod
     def observational(lines):
         """results + callbacks + file state + writes + final image; reads and cache hits ignored"""
-        return [l for l in lines if not (l.startswith("DEV ") and (" R " in l or " RF " in l))]
+        return [l for l in lines if not (l.startswith("DEV ") and (" R " in l or " RF " in l)) and not l.startswith("INT ")]
 
     def disagreements(self, scripts=None, strict=True):
         out = []
@@ -153,12 +157,40 @@ class Env:
         return best
 
     def replay_text(self, sc, extra=""):
-        txt = ["script (replay: build/modelrun-fs run <script> ; harness/target/debug/fsrun <script>):", open(sc["path"]).read()]
+        """saves script + image next to the replay file (replays/<pid>/) so that the case can be re-run later"""
+        d = os.path.join(V.REPLAYS, self.run.pid)
+        os.makedirs(d, exist_ok=True)
+        base = os.path.join(d, "%s-%s" % (self.run.tier, sc["name"]))
+        shutil.copy(sc["img"], base + ".img")
+        fsgen.write_script(base + ".script", base + ".img", sc["limits"], sc["ops"], sc["id_offset"], sc["faults"])
+        txt = ["replay: ./check %s --replay %s.script   (or: build/modelrun-fs run %s.script ; harness/target/debug/fsrun %s.script)" % (self.run.pid, base, base, base),
+               "script:", open(base + ".script").read()]
         img_lines = sum(1 for _ in open(sc["img"]))
-        txt.append("image: %s (%d non-zero blocks; regenerate with VERIF_SEED=%d)" % (sc["img"], img_lines, self.run.seed))
+        txt.append("image: %s.img (%d non-zero blocks; generated with VERIF_SEED=%d)" % (base, img_lines, self.run.seed))
         if extra:
             txt.append(extra)
         return "\n".join(txt)
+
+    def load_replay(self, path):
+        """a saved .script (or a replay file naming one) -> scenario"""
+        if not path.endswith(".script"):
+            for l in open(path):
+                if "--replay " in l and ".script" in l:
+                    path = l.split("--replay ")[1].split()[0]
+                    break
+        lim, off, faults, img, ops = (1, 4, 4), 5000, [], None, []
+        for l in open(path):
+            t = l.split()
+            if not t or t[0] == "#": continue
+            if t[0] == "CFG": lim = (int(t[1]), int(t[2]), int(t[3])); off = int(t[4])
+            elif t[0] == "FAULTS": faults = [int(x) for x in t[1:]]
+            elif t[0] == "IMG": img = t[1]
+            else: ops.append(l.strip().split(" ", 1)[1])
+        dev = {int(l.split()[0]): bytes.fromhex(l.split()[1]) for l in open(img)}
+        mbr = dev.get(0, bytes(512))
+        slot = next((i for i in range(4) if mbr[446 + 16 * i + 4] != 0), 0)
+        meta = dict(geo="replay", dev0=dev, slot=slot, spc=1)
+        return self.add_script("replay", img, lim, ops, off, faults, meta)
 
     def report_disagreements(self, dis, theorems, what="layer-B model vs implementation"):
         for sc, d, dobs in dis[:2]:
